@@ -120,6 +120,25 @@ pub fn cast_sources(src: Shape, tgt: Shape) -> BoxedStrategy<Pat> {
             let z = Z::from_le(&p.0, signed).add(&Z::pow2(tw).mul_i(k));
             Pat(z.to_le_wrapped(src.bytes))
         }),
+        // ALMOST PURE PADDING: a target-shaped low part; above it the source digits are all zero (or all
+        // ones) except for one to three digits drawn from the extreme-value table (1, 2^(d-1), MAX, 2^k ...).
+        // Representability is decided by the digits above the target width, so a test that combines them
+        // lossily (sums, folds, looks at some of them) is wrong exactly here
+        2 => (gen::pattern(tgt), any::<bool>(), proptest::collection::vec((any::<u16>(), gen::digit_value(src.digit_bytes)), 1..4)).prop_map(move |(low, ones, devs)| {
+            let db = src.digit_bytes;
+            let n = src.n();
+            let first = ((tw as usize + 8 * db - 1) / (8 * db)).min(n); // first source digit entirely above the target
+            let mut out = vec![if ones { 0xffu8 } else { 0u8 }; src.bytes];
+            let keep = low.0.len().min(src.bytes);
+            out[..keep].copy_from_slice(&low.0[..keep]);
+            if first < n {
+                for (pos, v) in devs {
+                    let i = first + pos as usize % (n - first);
+                    out[i * db..(i + 1) * db].copy_from_slice(&v.to_le_bytes()[..db]);
+                }
+            }
+            Pat(out)
+        }),
         2 => (0u8..8, -2i64..=2).prop_map(move |(sel, e)| {
             let z = match sel {
                 0 => Z::pow2(tw - 1),
